@@ -3,7 +3,8 @@
 Runtime monitoring across interpreter processes.  The real RandomUDSServer is built in child
 interpreters (`python -m vf.checks.c16 --child spec.json out.json`) that differ in PYTHONHASHSEED,
 import order, construction path (direct / the CLI's config object), prior use of the global `random`
-module and a shifted wall clock.  Every child reports the model (`RandomUDSServer.services` after
+module, a shifted wall clock and in whether another virtual ECU (other seed) was set up and asked the same
+history in the same interpreter before.  Every child reports the model (`RandomUDSServer.services` after
 `setup()`) and the transcript of `UDSServerTransport.handle_request` over one request history; the
 parent compares them byte by byte (security seeds masked).  One more child per configuration walks
 the session graph through real `10 xx` requests.
@@ -28,17 +29,19 @@ LEVEL = "exploration"
 ENGINE = "subprocess-lifecycle"
 TECHNIQUE = (
     "runtime monitoring across processes: the real RandomUDSServer is constructed in separate interpreter processes that "
-    "differ in PYTHONHASHSEED, import order, construction path, global-random history and wall-clock offset; the dumped "
+    "differ in PYTHONHASHSEED, import order, construction path, global-random history, wall-clock offset and in whether another "
+    "virtual ECU with a different seed was constructed, set up and exercised in the same interpreter before; the dumped "
     "model and the handle_request transcript over a generated, state-carrying request history are compared byte by byte "
     "(security seeds masked); the session graph is walked with real DiagnosticSessionControl requests"
 )
 LEVEL_TEXT = (
-    "Exploration: 16 (quick) / 304 (thorough) configurations = seed x randomness parameters (probabilities 0, 0.05, 0.5, 1; "
+    "Exploration: 16 (quick) / 304 (thorough) configurations (+ 2 boundary-seed and 3 focus configurations in both tiers) = seed x randomness parameters (probabilities 0, 0.05, 0.5, 1; "
     "mandatory/optional lists empty, default, full, random subsets) each run in 4 (quick) / 6 (thorough) process environments "
     "plus one walk process, and in both tiers two boundary-seed configurations (seed 0 as int and as the string '0') that are "
     "always taken through the CLI/config constructor path in three further processes, over histories of 30..300 requests built from the observed model (session changes, resets, "
     "security access with correct/wrong keys, reads/writes/routines, every-service sweeps, reference-generated valid "
-    "requests, random bytes).  Held means: no difference was observed on these configurations, histories and environments."
+    "requests, random bytes; in the focus configurations - ReadDTCInformation, SecurityAccess and the identifier services mandatory and "
+    "answering positively - additionally requestSeed directly followed by a request answered from stateful_rng, and 19 02 <mask> in every session).  Held means: no difference was observed on these configurations, histories and environments."
 )
 LEVEL_NOTE = (
     "Trusted: the comparison/masking logic and the BFS in vf/checks/c16.py; the request generators in vf/gen_uds.py. "
@@ -51,7 +54,10 @@ RULE = (
     "mandatory) plus two fixed boundary-seed configurations (seed 0 / '0', CLI constructor path forced) plus seeded random draws (each probability from {default,0,0.05,0.5,1}, each list from "
     "{default,empty,full,random subset}); seeds are ints (0,1,-1,2^31-1,2^63-1,2^64+3,random 63 bit) and strings; histories "
     "are generated from the model the walk process observed; non-trivial = the transcript shows at least 3 distinct "
-    "replies; distinct = distinct (configuration, history, environment)"
+    "replies; distinct = distinct (configuration, history, environment); three fixed focus configurations (and a quarter of the random "
+    "draws) make 10/3E/27/19/22/2E/31 mandatory with p_sub_function >= 0.2, p_identifier and p_correct_payload_format >= 0.5; two of the "
+    "environments of every configuration first run the whole history (plus the history's stateful requests in up to 12 of its own sessions) "
+    "against another RandomUDSServer with a different seed in the same interpreter"
 )
 ASSUMPTIONS = [
     "security-access seeds (positive replies 67 <odd> ...) are exempt including their length (an empty seed occurs in about 6% of the "
@@ -68,14 +74,19 @@ ASSUMPTIONS = [
     "'can return to the default session' accepts any DiagnosticSessionControl path of the model or an offered ECUReset; "
     "the inactivity timeout is not counted as a way back",
     "reachability walks are judged only under default behaviour flags (the statement quantifies over randomness parameters)",
+    "'in different processes' includes processes that hold more than one virtual ECU: what another RandomUDSServer instance (other seed, same "
+    "arguments) was asked before in the same interpreter must not change the model or any answer of the ECU under test",
 ]
 EXHAUSTIVE = {"quick": False, "thorough": False}
 EXHAUSTIVE_NOTE = "per configuration every offered session is walked (exhaustive over the sessions of the observed model)"
 
 ROOT = Path(__file__).resolve().parent.parent.parent
 PY = "/venv/bin/python"
-DIMS = ["PYTHONHASHSEED", "import-order", "constructor-path", "global-random", "wall-clock"]
-ENV_FIELD = {"PYTHONHASHSEED": "hashseed", "import-order": "imp", "constructor-path": "ctor", "global-random": "grand", "wall-clock": "clock"}
+DIMS = ["PYTHONHASHSEED", "import-order", "constructor-path", "global-random", "wall-clock", "other-ecu-in-same-process"]
+ENV_FIELD = {"PYTHONHASHSEED": "hashseed", "import-order": "imp", "constructor-path": "ctor", "global-random": "grand", "wall-clock": "clock",
+             "other-ecu-in-same-process": "other"}
+# services whose answers RandomUDSServer derives from stateful_rng (seed, session, request): any other input shows there
+STATEFUL_SIDS = (0x22, 0x2E, 0x2F, 0x31, 0x14, 0x19)
 PROBS = ["p_session", "p_service", "p_sub_function", "p_identifier", "p_correct_payload_format", "p_dtc_status_mask"]
 BEHAVIOR_FLAGS = [
     "default_response_if_service_not_supported", "default_response_if_missing_sub_function",
@@ -163,7 +174,7 @@ def child_main(spec_file: str, out_file: str) -> int:
     seed = spec["seed"]
     target = "tcp://127.0.0.1:20162"
 
-    def construct() -> Any:
+    def construct(seed: Any = seed) -> Any:
         if grand:
             for _ in range(int(grand["calls"]) % 7 + 1):
                 _random.random()
@@ -194,7 +205,103 @@ def child_main(spec_file: str, out_file: str) -> int:
         raw = [[int(sess), [[int(sid), None if sf is None else [int(x) for x in sf]] for sid, sf in svc.items()]] for sess, svc in sv.items()]
         return canon, raw
 
+    async def drive(server: Any, history: list[str], progress: bool) -> dict[str, Any]:
+        """One request history against one server; the transcript with security seeds masked."""
+        transport = S.UDSServerTransport(server, TargetURI(target))
+        sessions: list[int] = []
+        transcript: list[list[Any]] = []
+        seeds: list[str] = []
+        last_seed: bytes | None = None
+        masked = 0
+        max_gap = 0.0
+        t_prev = perf()
+        for i, item in enumerate(history):
+            if progress:
+                out["progress"] = i
+            if item.startswith("key:"):
+                req = bytes([SA, int(item[4:], 16)]) + (last_seed or b"")
+            elif item.startswith("badkey:"):
+                req = bytes([SA, int(item[7:], 16)]) + (last_seed or b"") + b"\x5a"
+            else:
+                req = bytes.fromhex(item)
+            if grand:
+                _random.random()
+            pre = getattr(server.state, "last_sa_response", None)
+            sessions.append(int(server.state.session))
+            # dep: everything about this reply that may legitimately depend on a fresh seed.  A sendKey that directly
+            # follows its seed depends on "key equals seed"; a key token additionally carries the seed (and its length,
+            # possibly zero) in the request itself.
+            dep = None
+            token = not item[:1].isdigit() and item.startswith(("key:", "badkey:"))
+            if len(req) >= 2 and req[0] == SA and (req[1] & 0x7F) % 2 == 0:
+                follows = pre is not None and (req[1] & 0x7F) == pre.security_access_type + 1
+                if follows:
+                    dep = "eq" if req[2:] == pre.security_seed else "ne"
+                if token:
+                    dep = (dep or "nosa") + ("/empty" if len(req) == 2 else "/nonempty")
+            now = perf()
+            max_gap = max(max_gap, now - t_prev)
+            try:
+                rep, _ = await transport.handle_request(req)
+            except Exception as e:  # survival is C14's business; here only "same in every process"
+                transcript.append([f"EXC:{type(e).__name__}", dep])
+                t_prev = perf()
+                continue
+            t_prev = perf()
+            if rep is None:
+                transcript.append(["none", dep])
+            elif len(rep) >= 2 and rep[0] == 0x67 and rep[1] % 2 == 1:
+                last_seed = bytes(rep[2:])
+                seeds.append(last_seed.hex())
+                masked += 1
+                transcript.append([bytes(rep[:2]).hex() + "**", dep])
+            else:
+                transcript.append([bytes(rep).hex(), dep])
+        return {"transcript": transcript, "seeds": seeds, "masked": masked, "max_gap": max_gap, "sessions": sessions}
+
+    async def exercise_other(other: dict[str, Any]) -> dict[str, Any]:
+        """Environment dimension: another virtual ECU (other seed, same arguments) lives in this interpreter and was set up
+        and asked the same history before the ECU under test exists.  Returns what it was asked, for the reach counters."""
+        info: dict[str, Any] = {"seed": repr(other["seed"]), "requests": 0, "positive": [], "error": None}
+        try:
+            osrv = construct(other["seed"])
+            await osrv.setup()
+        except Exception as e:
+            info["error"] = f"{type(e).__name__}: {str(e)[:200]}"
+            return info
+        keep_alive.append(osrv)  # both ECUs exist side by side, as in a process that simulates a small network
+        history = spec.get("history") or []
+        d = await drive(osrv, history, False)
+        positive = {(sess, item) for sess, item, (r, _) in zip(d["sessions"], history, d["transcript"]) if r[:2] not in ("7f", "no", "EX")}
+        n = len(history)
+        # the same stateful requests once more in every session the other ECU can enter (its model differs from the one
+        # the history was generated from, so the history alone mostly meets it in the default session)
+        om = {int(sess): {int(sid): sf for sid, sf in svc.items()} for sess, svc in osrv.services.items()}
+        probes = list(dict.fromkeys(x for x in history if x[:1].isdigit() and len(x) >= 2 and int(x[:2], 16) in STATEFUL_SIDS))[:40]
+        paths: dict[int, list[int]] = {1: [1]} if 1 in om else {}
+        todo = list(paths)
+        while todo:
+            a = todo.pop(0)
+            for b in om.get(a, {}).get(DSC) or []:
+                if b in om and b not in paths:
+                    paths[b] = paths[a] + [b]
+                    todo.append(b)
+        for sess in sorted(paths)[:12]:
+            sweep = [f"10{hop:02x}" for hop in paths[sess][1:]] + probes + ["1001"]
+            d2 = await drive(osrv, sweep, False)
+            n += len(sweep)
+            positive |= {(ss, item) for ss, item, (r, _) in zip(d2["sessions"], sweep, d2["transcript"]) if r[:2] not in ("7f", "no", "EX")}
+        info["requests"] = n
+        info["positive"] = sorted([ss, item] for ss, item in positive if item[:1].isdigit() and int(item[:2], 16) in STATEFUL_SIDS + (SA, RESET))
+        info["sessions"] = len(om)
+        return info
+
+    keep_alive: list[Any] = []
+
     async def main() -> None:
+        if env.get("other"):
+            out["stage"] = "other-ecu"
+            out["other"] = await exercise_other(env["other"])
         out["stage"] = "construct"
         try:
             server = construct()
@@ -227,58 +334,21 @@ def child_main(spec_file: str, out_file: str) -> int:
         # ---- transcript -----------------------------------------------------------------------
         out["stage"] = "history"
         history = spec.get("history") or []
-        transport = S.UDSServerTransport(server, TargetURI(target))
-        transcript: list[list[Any]] = []
-        seeds: list[str] = []
-        last_seed: bytes | None = None
-        masked = 0
-        max_gap = 0.0
-        t_prev = perf()
-        for i, item in enumerate(history):
-            out["progress"] = i
-            if item.startswith("key:"):
-                req = bytes([SA, int(item[4:], 16)]) + (last_seed or b"")
-            elif item.startswith("badkey:"):
-                req = bytes([SA, int(item[7:], 16)]) + (last_seed or b"") + b"\x5a"
-            else:
-                req = bytes.fromhex(item)
-            if grand:
-                _random.random()
-            pre = getattr(server.state, "last_sa_response", None)
-            # dep: everything about this reply that may legitimately depend on a fresh seed.  A sendKey that directly
-            # follows its seed depends on "key equals seed"; a key token additionally carries the seed (and its length,
-            # possibly zero) in the request itself.
-            dep = None
-            token = not item[:1].isdigit() and item.startswith(("key:", "badkey:"))
-            if len(req) >= 2 and req[0] == SA and (req[1] & 0x7F) % 2 == 0:
-                follows = pre is not None and (req[1] & 0x7F) == pre.security_access_type + 1
-                if follows:
-                    dep = "eq" if req[2:] == pre.security_seed else "ne"
-                if token:
-                    dep = (dep or "nosa") + ("/empty" if len(req) == 2 else "/nonempty")
-            now = perf()
-            max_gap = max(max_gap, now - t_prev)
-            try:
-                rep, _ = await transport.handle_request(req)
-            except Exception as e:  # survival is C14's business; here only "same in every process"
-                transcript.append([f"EXC:{type(e).__name__}", dep])
-                t_prev = perf()
-                continue
-            t_prev = perf()
-            if rep is None:
-                transcript.append(["none", dep])
-            elif len(rep) >= 2 and rep[0] == 0x67 and rep[1] % 2 == 1:
-                last_seed = bytes(rep[2:])
-                seeds.append(last_seed.hex())
-                masked += 1
-                transcript.append([bytes(rep[:2]).hex() + "**", dep])
-            else:
-                transcript.append([bytes(rep).hex(), dep])
+        d = await drive(server, history, True)
+        transcript, seeds, masked, max_gap = d["transcript"], d["seeds"], d["masked"], d["max_gap"]
         out["transcript"] = transcript
         out["seeds"] = seeds
         out["masked"] = masked
         out["max_gap"] = max_gap
         out["final_session"] = int(server.state.session)
+        if out.get("other") and not out["other"]["error"]:
+            # how much of what the ECU under test answered had been answered by the other ECU in the same session before
+            seen = {(ss, item) for ss, item in out["other"].pop("positive")}
+            both = [(ss, item) for ss, item, (r, _) in zip(d["sessions"], history, transcript) if (ss, item) in seen and r[:2] not in ("7f", "no", "EX")]
+            dtc_sessions = {ss for ss, item in seen if item.startswith("1902")}
+            out["other"]["answered_by_both"] = len(both)
+            out["other"]["dtc_read_in_session_read_by_other"] = sum(
+                1 for ss, item, (r, _) in zip(d["sessions"], history, transcript) if item.startswith("1902") and r.startswith("5902") and ss in dtc_sessions)
 
         # ---- walks ----------------------------------------------------------------------------
         if spec.get("walk"):
@@ -371,6 +441,11 @@ def child_main(spec_file: str, out_file: str) -> int:
 # Boundary-seed configurations, part of every tier: seed 0 (falsy; lower end of the documented range) as an int and as the
 # string "0" the command line delivers, always taken through the CLI/config constructor path in several processes.
 SEED0_CONFIGS = [1000, 1001]
+# Focus configurations, part of every tier: ReadDTCInformation, SecurityAccess (with many levels) and the identifier services are
+# mandatory and answer positively, and the histories put "requestSeed, [testerPresent,] request answered from stateful_rng" and
+# "19 02 <mask>" patterns into every session (what a cache shared between servers or a dependence on the pending seed needs).
+FOCUS_CONFIGS = [1100, 1101, 1102]
+FOCUS_SERVICES = [0x10, 0x3E, 0x27, 0x19, 0x22, 0x2E, 0x31]
 
 
 def shards(tier: str, seed: int) -> list[dict[str, Any]]:
@@ -379,7 +454,7 @@ def shards(tier: str, seed: int) -> list[dict[str, Any]]:
     else:
         n, parts, jobs = 304, 16, 2
     out = [{"configs": list(range(p, n, parts)), "jobs": jobs} for p in range(parts)]
-    for k, i in enumerate(SEED0_CONFIGS):  # one per shard, from the end (shard 0 also runs the seed-pair sanity child)
+    for k, i in enumerate(SEED0_CONFIGS + FOCUS_CONFIGS):  # one per shard, from the end (shard 0 also runs the seed-pair sanity child)
         out[-1 - (k % parts)]["configs"].append(i)
     return out
 
@@ -398,6 +473,14 @@ def required_reach(tier: str) -> dict[str, int]:
         "history.session-change-succeeded": 20 if q else 500,
         "history.positive-non-session-replies": 20 if q else 500,
         "security.seeds-masked": 5 if q else 100,
+        # a fresh security seed is pending (only TesterPresent in between) when a request answered from stateful_rng arrives
+        "security.seed-pending-then-stateful-request": 30 if q else 300,
+        "security.seed-pending-then-rng-derived-positive-reply": 20 if q else 200,
+        # another virtual ECU (other seed) was set up and asked the same history in the same interpreter before the ECU under test
+        "env.other-ecu-in-same-process.varied": 16 if q else 200,
+        "other-ecu.request-answered-positively-by-both-in-same-session": 100 if q else 1000,
+        "other-ecu.dtc-read-in-session-where-other-ecu-read-dtc": 30 if q else 300,
+        "history.dtc-read-answered": 20 if q else 200,
         "security.key-accepted": 1 if q else 20,
         "models.differ-for-different-seeds": 1,
         "walk.sessions-reached": 20 if q else 500,
@@ -420,6 +503,7 @@ def gen_config(vseed: int, i: int) -> dict[str, Any]:
     behavior: dict[str, bool] = {}
     seed: Any = base
     label = "random"
+    focus = False
     if i in SEED0_CONFIGS:
         if i == SEED0_CONFIGS[0]:
             label, seed = "seed-0/int/defaults", 0
@@ -428,6 +512,21 @@ def gen_config(vseed: int, i: int) -> dict[str, Any]:
             args = dict(p_session=0.5, p_identifier=0.5)
         return {"index": i, "label": label, "seed": seed, "args": args, "behavior": behavior, "history_len": 60,
                 "history_seed": rng.getrandbits(48), "seed0": True}
+    if i in FOCUS_CONFIGS:
+        k = FOCUS_CONFIGS.index(i)
+        if k == 0:
+            label = "focus-dtc-security/all-positive"
+            args = dict(mandatory_sessions=[1, 3], mandatory_services=FOCUS_SERVICES + [0x11, 0x14], p_session=0.5, p_sub_function=0.5,
+                        p_identifier=1, p_correct_payload_format=1)
+        elif k == 1:
+            label, seed = "focus-dtc-security/half-positive/small-seed", rng.getrandbits(16)
+            args = dict(mandatory_sessions=[1, 2, 3], mandatory_services=FOCUS_SERVICES + [0x2F], p_service=0.5, p_sub_function=1,
+                        p_identifier=0.5, p_correct_payload_format=0.5)
+        else:
+            label, seed = "focus-dtc-security/string-seed", rng.choice(["abc", "seed|1|2", "ß中", "ecu-7"])
+            args = dict(mandatory_services=FOCUS_SERVICES, p_session=0.5, p_sub_function=0.2, p_identifier=0.5, p_correct_payload_format=1)
+        return {"index": i, "label": label, "seed": seed, "args": args, "behavior": behavior, "history_len": [200, 200, 120][k],
+                "history_seed": rng.getrandbits(48), "focus": True}
     if i == 0:
         label = "defaults/seed-a"
     elif i == 1:
@@ -489,7 +588,24 @@ def gen_config(vseed: int, i: int) -> dict[str, Any]:
         if rng.random() < 0.15:
             for f in rng.sample(BEHAVIOR_FLAGS, rng.randint(1, 3)):
                 behavior[f] = False
+        # a quarter of the random draws is turned into a focus configuration (own generator: the other draws stay what they were)
+        frng = random.Random(f"C16/{vseed}/focus/{i}")
+        if frng.random() < 0.25:
+            focus = True
+            label = "random/focus-dtc-security"
+            ms = list(args.get("mandatory_services", [DSC]))
+            for sid in FOCUS_SERVICES:
+                if sid not in ms:
+                    ms.insert(frng.randrange(len(ms) + 1), sid)
+            args["mandatory_services"] = ms
+            if args.get("p_sub_function", 0.05) < 0.2:
+                args["p_sub_function"] = frng.choice([0.2, 0.5, 1])
+            if args.get("p_identifier", 0.005) < 0.5:
+                args["p_identifier"] = frng.choice([0.5, 1])
+            if args.get("p_correct_payload_format", 0.1) < 0.5:
+                args["p_correct_payload_format"] = frng.choice([0.5, 1])
     return {
+        "focus": focus,
         "index": i, "label": label, "seed": seed, "args": args, "behavior": behavior,
         "history_len": rng.choice([30, 60, 120, 200, 300]) if i >= 8 else [120, 120, 60, 300, 30, 200, 120, 120][i],
         "history_seed": rng.getrandbits(48),
@@ -501,20 +617,29 @@ def make_envs(tier: str, cfg: dict[str, Any], rng: random.Random) -> list[dict[s
     cli = "cli" if numeric else "direct"
     g1 = {"seed": rng.getrandbits(32), "calls": rng.randint(1, 50)}
     g2 = {"seed": rng.getrandbits(32), "calls": rng.randint(1, 50)}
+    # "other": another virtual ECU with this (different) seed and the same arguments is constructed, set up and asked the same
+    # history in the same interpreter before the ECU under test is constructed; the baseline process only ever holds one ECU
+    s = cfg["seed"]
+    if isinstance(s, int):
+        other = {"seed": s + 1000003}
+    elif numeric:
+        other = {"seed": str(int(s) + 7)}
+    else:
+        other = {"seed": s + "~other"}
     envs = [
         # the baseline pins the global generator too, so that a dependence on it is reproducible there and gets its own name;
         # the second environment leaves it unseeded, as a user's process would
-        {"hashseed": "0", "imp": "server", "ctor": "direct", "grand": {"seed": 12345, "calls": 0}, "clock": 0},
-        {"hashseed": "1", "imp": "tree", "ctor": "direct", "grand": None, "clock": 0},
-        {"hashseed": "4242", "imp": "server", "ctor": cli, "grand": g1, "clock": 0},
-        {"hashseed": "random", "imp": "tree", "ctor": cli, "grand": g2, "clock": 1e9},
+        {"hashseed": "0", "imp": "server", "ctor": "direct", "grand": {"seed": 12345, "calls": 0}, "clock": 0, "other": None},
+        {"hashseed": "1", "imp": "tree", "ctor": "direct", "grand": None, "clock": 0, "other": other},
+        {"hashseed": "4242", "imp": "server", "ctor": cli, "grand": g1, "clock": 0, "other": other},
+        {"hashseed": "random", "imp": "tree", "ctor": cli, "grand": g2, "clock": 1e9, "other": None},
     ]
     if cfg.get("seed0"):
         # the boundary seed once more as an int through the config object, in a process that differs in nothing else
         envs.append(dict(envs[0], ctor="cli-int"))
     if tier != "quick":
-        envs.append({"hashseed": str(rng.randrange(2, 2**32)), "imp": "server", "ctor": "direct", "grand": dict(g2, calls=g2["calls"] + 13), "clock": -1.7e9})
-        envs.append({"hashseed": "random", "imp": "tree", "ctor": "direct", "grand": None, "clock": 3e9})
+        envs.append({"hashseed": str(rng.randrange(2, 2**32)), "imp": "server", "ctor": "direct", "grand": dict(g2, calls=g2["calls"] + 13), "clock": -1.7e9, "other": None})
+        envs.append({"hashseed": "random", "imp": "tree", "ctor": "direct", "grand": None, "clock": 3e9, "other": other})
     return envs
 
 
@@ -534,8 +659,11 @@ def _valid_requests(rng: random.Random, n: int) -> list[str]:
     return out
 
 
-def gen_history(rng: random.Random, model: dict[str, Any], n: int) -> list[str]:
-    """Requests steered by the observed model so that state is carried; tokens key:/badkey: are filled in by the child."""
+def gen_history(rng: random.Random, model: dict[str, Any], n: int, focus: bool = False) -> list[str]:
+    """Requests steered by the observed model so that state is carried; tokens key:/badkey: are filled in by the child.
+
+    focus: a third of the steps additionally emits "27 <odd level offered> [3E] <request answered from stateful_rng> [key]"
+    or "19 02 <mask>" in the current session, when the model offers the services there."""
     M = {int(s): {int(k): v for k, v in d.items()} for s, d in model.items()}
     cur = 1
     out: list[str] = []
@@ -569,6 +697,27 @@ def gen_history(rng: random.Random, model: dict[str, Any], n: int) -> list[str]:
 
     while len(out) < n:
         svc = M.get(cur, {})
+        if focus and rng.random() < 0.34:
+            levels = [x for x in (svc.get(SA) or []) if x % 2 == 1]
+            stateful = [x for x in STATEFUL_SIDS if x in svc] + ([RESET] if 4 in (svc.get(RESET) or []) else [])
+            j = rng.random()
+            if j < 0.6 and levels and stateful:
+                sf = rng.choice(levels)
+                out.append(f"27{sf:02x}")
+                if rng.random() < 0.4:
+                    out.append(rng.choice(["3e00", "3e80", "3e00"]))
+                sid = rng.choice(stateful)
+                if sid == RESET:
+                    out.append("1104")
+                    cur = 1
+                else:
+                    out.append(targeted(sid))
+                if rng.random() < 0.5:
+                    out.append(f"key:{sf + 1:02x}")
+                continue
+            if j < 0.9 and 0x19 in svc:
+                out.append(targeted(0x19))
+                continue
         k = rng.random()
         if k < 0.14:
             offered = [x for x in (svc.get(DSC) or []) if x != cur]
@@ -682,11 +831,12 @@ class Runner:
 
 
 def env_brief(env: dict[str, Any]) -> dict[str, Any]:
-    return {"PYTHONHASHSEED": env["hashseed"], "import-order": env["imp"], "constructor-path": env["ctor"], "global-random": env["grand"], "wall-clock": env["clock"]}
+    return {"PYTHONHASHSEED": env["hashseed"], "import-order": env["imp"], "constructor-path": env["ctor"], "global-random": env["grand"], "wall-clock": env["clock"],
+            "other-ecu-in-same-process": env.get("other")}
 
 
 def diff_dims(a: dict[str, Any], b: dict[str, Any]) -> list[str]:
-    return [d for d in DIMS if a[ENV_FIELD[d]] != b[ENV_FIELD[d]]]
+    return [d for d in DIMS if a.get(ENV_FIELD[d]) != b.get(ENV_FIELD[d])]
 
 
 def first_transcript_diff(ta: list[list[Any]], tb: list[list[Any]]) -> tuple[int | None, int, int]:
@@ -739,6 +889,20 @@ def compare(oa: dict[str, Any], ob: dict[str, Any]) -> tuple[str | None, dict[st
         rb = ob["transcript"][idx] if idx < len(ob["transcript"]) else None
         return "transcript", {"index": idx, "reply_a": ra, "reply_b": rb}
     return None, {"compared": compared, "skipped": skipped}
+
+
+STATEFUL_HEX = tuple(f"{x:02x}" for x in STATEFUL_SIDS) + ("11",)
+
+
+def seed_pending_before(history: list[str], replies: list[str], idx: int) -> bool:
+    """Is request #idx (not itself a SecurityAccess or TesterPresent request) the first one after a handed-out security seed,
+    with nothing but TesterPresent in between?"""
+    if idx >= len(history) or sid_of(history, idx) in ("27", "3e"):
+        return False
+    j = idx - 1
+    while j >= 0 and sid_of(history, j) == "3e" and replies[j] in ("7e00", "none"):
+        j -= 1
+    return j >= 0 and replies[j].startswith("67") and replies[j].endswith("**")
 
 
 def sid_of(history: list[str], idx: int) -> str:
@@ -805,7 +969,8 @@ def run_config(rn: Runner, tier: str, vseed: int, cfg: dict[str, Any], deadline_
         rep["model"] = ow["model"]
         judge_model(cfg, w, viol, bump, base_w)
     # ---- phase 2: the same history in every environment
-    history = gen_history(random.Random(f"C16/{vseed}/hist/{cfg['index']}/{cfg['history_seed']}"), model, cfg["history_len"]) if model else ["1001", "3e00"]
+    history = (gen_history(random.Random(f"C16/{vseed}/hist/{cfg['index']}/{cfg['history_seed']}"), model, cfg["history_len"], bool(cfg.get("focus")))
+               if model else ["1001", "3e00"])
     results: list[dict[str, Any] | None] = []
     for k, env in enumerate(envs):
         if deadline_left() <= 0 and k >= 2:
@@ -835,6 +1000,13 @@ def run_config(rn: Runner, tier: str, vseed: int, cfg: dict[str, Any], deadline_
         bump("security.seeds-masked", r0.get("masked", 0))
         bump("security.key-accepted", sum(1 for i, x in enumerate(t) if x.startswith("67") and not x.endswith("**")))
         bump("security.key-rejected", sum(1 for x in t if x == "7f2735"))
+        bump("history.dtc-read-answered", sum(1 for i, x in enumerate(t) if x.startswith("5902") and sid_of(history, i) == "19"))
+        for i in range(len(t)):
+            if seed_pending_before(history, t, i) and sid_of(history, i) in STATEFUL_HEX:
+                bump("security.seed-pending-then-stateful-request")
+                if not t[i].startswith(("7f", "none", "EXC")):
+                    bump("security.seed-pending-then-rng-derived-positive-reply")
+                    bump("security.seed-pending-then-positive-reply.sid-" + sid_of(history, i))
         rep["sample"] = {"label": cfg["label"], "seed": cfg["seed"], "args": {k: (v if not isinstance(v, list) or len(v) < 10 else f"<{len(v)} items>") for k, v in cfg["args"].items()},
                          "behavior": cfg["behavior"], "sessions": len(r0["model"]), "history_len": len(history), "history_head": history[:6],
                          "replies_head": t[:6], "distinct_replies": distinct, "environments": len([r for r in results if r])}
@@ -867,6 +1039,15 @@ def run_config(rn: Runner, tier: str, vseed: int, cfg: dict[str, Any], deadline_
                     bump("seed0.configs-with-two-cli-processes")
         if "global-random" in dims:
             bump("env.global-random.varied")
+        if "other-ecu-in-same-process" in dims:
+            oi = rk.get("other") or r0.get("other") or {}
+            if oi and not oi.get("error") and oi.get("requests", 0) >= len(history):
+                bump("env.other-ecu-in-same-process.varied")
+                bump("other-ecu.requests-to-other-ecu", oi["requests"])
+                bump("other-ecu.request-answered-positively-by-both-in-same-session", oi.get("answered_by_both", 0))
+                bump("other-ecu.dtc-read-in-session-where-other-ecu-read-dtc", oi.get("dtc_read_in_session_read_by_other", 0))
+            elif oi.get("error"):
+                bump("other-ecu.setup-failed")
         if "wall-clock" in dims and abs((rk["server_clock_minus_real"] - r0["server_clock_minus_real"]) - (env["clock"] - envs[0]["clock"])) < 5:
             bump("env.wall-clock.varied")
         kind, detail = compare(o0, ok_)
@@ -887,7 +1068,7 @@ def run_config(rn: Runner, tier: str, vseed: int, cfg: dict[str, Any], deadline_
         else:
             for d in dims:
                 e1 = dict(envs[0])
-                e1[ENV_FIELD[d]] = env[ENV_FIELD[d]]
+                e1[ENV_FIELD[d]] = env.get(ENV_FIELD[d])
                 r1 = run_child(e1, history, False, f"a{k}{d[:2]}")
                 if r1 is not None and compare(o0, observation(r1))[0] is not None:
                     blamed.append(d)
@@ -900,6 +1081,10 @@ def run_config(rn: Runner, tier: str, vseed: int, cfg: dict[str, Any], deadline_
             wit["request"] = history[idx] if idx < len(history) else None
         for d in blamed:
             suffix = f"/sid-{sid_of(history, detail['index'])}" if kind == "transcript" else ""
+            if kind == "transcript" and seed_pending_before(history, [x[0] for x in r0["transcript"]], detail["index"]):
+                # differs exactly where a fresh security seed is pending: the exempt value may be leaking into this answer
+                # (then the single-dimension attribution above is a matter of chance)
+                suffix = "/pending-security-seed" + suffix
             name = {"outcome": "setup-outcome"}.get(kind, kind)
             viol(f"{name}/differs-across/{d}{suffix}",
                  f"{name} differs between processes that differ in {d}" + (f" (first differing reply at request #{detail['index']})" if kind == "transcript" else ""),
